@@ -83,7 +83,7 @@ def fetch_impl(wc, keys, rep, chunks):
         return ("e", core.exn_name(e))
 
 
-SERDES = ["none", "pickle0", "pickle2", "pickle5", "compressed", "custom"]
+SERDES = ["none", "pickle0", "pickle2", "pickle5", "compressed", "custom", "legacy"]
 
 
 def make_serde(name):
@@ -125,8 +125,11 @@ def roundtrip(stack, c, serde_name, key, value, chunks, coll):
     srv = Server()
     world = cs.World([], chunks, (), 1, srv.feed)
     server, kw = cs.client_kwargs(c, world)
-    sd = make_serde(serde_name)
-    if sd is not None:
+    sd = make_serde("custom" if serde_name == "legacy" else serde_name)
+    if serde_name == "legacy":
+        # the older spelling: two functions instead of an object (wrapped by LegacyWrappingSerde in each of the three classes)
+        kw["serializer"], kw["deserializer"] = sd.serialize, sd.deserialize
+    elif sd is not None:
         kw["serde"] = sd
     from pymemcache.client.base import Client, PooledClient
     from pymemcache.client.hash import HashClient
@@ -140,7 +143,7 @@ def roundtrip(stack, c, serde_name, key, value, chunks, coll):
     try:
         if cl.set(key, value, noreply=False) is not True:
             return "set did not report success"
-        cl.set(other, b"OTHER" if serde_name in ("none", "custom") else "OTHER", noreply=False)
+        cl.set(other, b"OTHER" if serde_name in ("none", "custom", "legacy") else "OTHER", noreply=False)
         got = cl.get(key)
         if got != want or type(got) is not type(want):
             return "get returned %r (%s), stored %r (%s)" % (repr(got)[:80], type(got).__name__, repr(want)[:80], type(want).__name__)
@@ -155,6 +158,22 @@ def roundtrip(stack, c, serde_name, key, value, chunks, coll):
             return "get_many(%s) returned keys %r with %r" % (coll, sorted(map(repr, many.keys())), repr(many.get(key))[:80])
         if many[other] not in (b"OTHER", "OTHER"):
             return "get_many returned another key's value for %r: %r" % (other, many[other])
+        # a batch of values of DIFFERENT kinds stored by one set_many: each comes back as itself (each item has its own flags)
+        batch = {b"m-bytes": b"raw\r\n", b"m-text": "text", b"m-int": 7, b"m-bytes2": b"\xff\xfe"}
+        if serde_name in ("none", "custom", "legacy"):
+            batch = {k: v for k, v in batch.items() if isinstance(v, bytes)}
+        else:
+            batch[b"m-obj"] = (1, "a", None)
+            batch[b"m-last"] = b"tail"
+        if cl.set_many(batch, noreply=False) != []:
+            return "set_many(%r) reported failed keys" % (batch,)
+        back = cl.get_many(list(batch))
+        for bk, bv in batch.items():
+            one = cl.get(bk)
+            for how, got_v in (("get", one), ("get_many", back.get(bk))):
+                if got_v != bv or type(got_v) is not type(bv):
+                    return "after set_many(%r): %s(%r) returned %r (%s), stored %r (%s)" % (list(batch.items()), how, bk, repr(got_v)[:60], type(got_v).__name__,
+                                                                                           repr(bv)[:60], type(bv).__name__)
         p = c.get("prefix", b"")
         wire = p + (key.encode("utf8") if isinstance(key, str) else key)
         if wire not in srv.d:
@@ -170,7 +189,7 @@ def rt_cases(ctx):
     rng = random.Random(ctx.seed * 61 + 4)
     out = []
     for serde_name in SERDES:
-        vals = NASTY if serde_name in ("none", "custom") else NASTY[:6] + VALUES_OBJ
+        vals = NASTY if serde_name in ("none", "custom", "legacy") else NASTY[:6] + VALUES_OBJ
         if serde_name == "none":
             vals = vals + ["text", "\xe9", 5, -5]
         for v in vals:
@@ -184,7 +203,7 @@ def rt_cases(ctx):
         for coll in ("list", "tuple", "set", "dict_keys", "iterator", "generator"):
             out.append(("Client", dict(tcp=False, prefix=b"p:", unicode=True, enc=1, default_noreply=False, ignore_exc=False), "none", key, b"v\r\nEND\r\n", [1] * 30, coll))
     for serde_name in SERDES:
-        if serde_name in ("none", "custom"):
+        if serde_name in ("none", "custom", "legacy"):
             continue
         for v in subclass_values():
             for stack in ("Client", "PooledClient", "HashClient"):
@@ -225,7 +244,9 @@ def correspondence(ctx):
     for i in range(200 if ctx.quick else 2000):
         c = dict(tcp=False, prefix=rng.choice([b"", b"p:"]), default_noreply=False, ignore_exc=False, serde=rng.choice([0, 1, 1, 2, 3, 12]), unicode=True, enc=rng.choice([0, 1]))
         k, v = rng.choice(KEYS[:5]), rng.choice(NASTY[:8] + ["text", 5])
-        ops = [(0, 0, k, v, 0, False, None), (3, k, None), (4, k, None, None), (7, rng.random() < 0.3, [b"zz", k]), (8, False, [k, b"q"])]
+        ops = [(0, 0, k, v, 0, False, None), (3, k, None), (4, k, None, None), (7, rng.random() < 0.3, [b"zz", k]), (8, False, [k, b"q"]),
+               # one set_many with values of different kinds (each item carries its own serializer flags), then fetched together
+               (1, [(b"m1", b"raw"), (b"m2", "text"), (b"m3", 7), (b"m4", b"tail")], 0, False, None), (7, False, [b"m1", b"m2", b"m3", b"m4"])]
         srv = Server()
         ch = [rng.choice([1, 2, 5, 4096]) for _ in range(rng.randrange(0, 50))]
         r = cs.run_impl(c, ops, [], ch, (), None, srv.feed)
